@@ -19,6 +19,8 @@ fn main() {
     let mut stream = None;
     let mut evidence = None;
     let mut replay = None;
+    let mut worker: Option<(String, u64)> = None;
+    let mut out = None;
     let mut i = 1;
     while i < args.len() {
         match args[i].as_str() {
@@ -42,6 +44,18 @@ fn main() {
                 i += 1;
                 evidence = Some(PathBuf::from(&args[i]));
             }
+            "--worker" => {
+                worker = Some((args[i + 1].clone(), args[i + 2].parse().expect("idx")));
+                i += 2;
+            }
+            "--out" => {
+                i += 1;
+                out = Some(args[i].clone());
+            }
+            "--journal" => {
+                i += 1;
+                btdht_verif::supervise::journal_open(&args[i]);
+            }
             "--replay" => {
                 i += 1;
                 replay = Some(args[i].clone());
@@ -55,6 +69,11 @@ fn main() {
     }
 
     runner::install_panic_monitor();
+
+    if let Some((stream, idx)) = worker {
+        let out = out.expect("--out");
+        std::process::exit(checks::worker(&id, tier, seed, &stream, idx, &out));
+    }
 
     if let Some(path) = replay {
         // Replay files are written by `verdict::conclude`; pull the fields we need with a tiny
